@@ -538,7 +538,8 @@ cdef class QobjEvo:
             if other._dims != self._dims:
                 raise TypeError("incompatible dimensions" +
                                 str(self.dims) + ", " + str(other.dims))
-            for element in (<QobjEvo> other).elements:
+            # `other` may be `self`: iterate over a copy of its elements.
+            for element in list((<QobjEvo> other).elements):
                 self.elements.append(element)
             self._update_feedback(other)
 
@@ -547,10 +548,14 @@ cdef class QobjEvo:
                 raise TypeError("incompatible dimensions" +
                                 str(self.dims) + ", " + str(other.dims))
             self.elements.append(_ConstantElement(other))
-        elif (
-            isinstance(other, numbers.Number) and
-            self._dims[0] == self._dims[1]
-        ):
+        elif isinstance(other, numbers.Number):
+            if self._dims[0] != self._dims[1]:
+                # Returning NotImplemented makes python fall back on
+                # `__add__`, which calls `__iadd__` again without end.
+                raise TypeError(
+                    "incompatible dimensions: a number can only be added to "
+                    "a square operator, not to one with dims " + str(self.dims)
+                )
             self.elements.append(_ConstantElement(other * qutip.qeye_like(self)))
         else:
             return NotImplemented
@@ -708,6 +713,7 @@ cdef class QobjEvo:
         res.elements = [element.linear_map(Qobj.trans)
                         for element in res.elements]
         res._dims = Dimensions(res._dims[0], res._dims[1])
+        res.shape = res._dims.shape
         return res
 
     def conj(self):
@@ -723,6 +729,7 @@ cdef class QobjEvo:
         res.elements = [element.linear_map(Qobj.dag, True)
                         for element in res.elements]
         res._dims = Dimensions(res._dims[0], res._dims[1])
+        res.shape = res._dims.shape
         return res
 
     def to(self, data_type):
